@@ -1,8 +1,9 @@
 #!/bin/bash
-# confirm both seeds of one worktree sequentially: seed_confirm_all.sh <ID>
+# confirm the seeds of one worktree sequentially: seed_confirm_all.sh <ID> [root=/tmp/seed]
 id=$1
+root=${2:-/tmp/seed}
 for n in 1 2; do
-  if [ -f /tmp/seed/$id/_seed/$n/patch.diff ] && [ ! -s /tmp/seed/$id.confirm$n.json ]; then
-    /venv/bin/python /verif/harness/seed_confirm.py /tmp/seed/$id /tmp/seed/$id/_seed/$n > /tmp/seed/$id.confirm$n.json 2>/tmp/seed/$id.confirm$n.err
+  if [ -f $root/$id/_seed/$n/patch.diff ] && [ ! -s $root/$id.confirm$n.json ]; then
+    /venv/bin/python /verif/harness/seed_confirm.py $root/$id $root/$id/_seed/$n > $root/$id.confirm$n.json 2>$root/$id.confirm$n.err
   fi
 done
